@@ -207,7 +207,11 @@ pub fn eval_p(case: &PCase) -> RunResult {
             "panic",
             format!("pool code panicked: {}", t.chars().take(200).collect::<String>()),
         )),
-        SimEnd::StepBound => inconclusive = true,
+        SimEnd::StepBound => o.violations.push(viol(
+            "C14",
+            "livelock",
+            format!("the pool never came to rest: {} scheduler steps without quiescence", crate::sched::MAX_STEPS),
+        )),
     }
     if matches!(end, SimEnd::Completed) && !o.done {
         inconclusive = true;
